@@ -12,6 +12,8 @@
                 bytes, IP literal tokens) up to L3 tokens, plain / bracketed / with trailing dot,
                 x certificates derived from the host (itself, lower-cased, unbracketed, first
                 label starred, as IP SAN in 4- and 16-byte form, another IP, common name ...)
+     "dots"     names with one, two, three trailing dots and interior / leading empty labels on the host
+                and on the SAN / common-name side, with and without '*' labels
    Output: file Out, one case per line: [host, cert, want, path, ipg].                        *)
 EXTENDS Hostname, TLC, Json, SequencesExt
 
@@ -43,6 +45,19 @@ VariantCerts(p) ==
 VariantCases(d) ==
   {Case(Chars(h), c)
    : h \in Strings(Sigma1, L2), c \in UNION {VariantCerts(Chars(p)) : p \in Strings(Sigma1, L1)}}
+
+----------------------------------------------------------------------------
+(* dots: one, two and three trailing dots and interior / leading empty labels, on either side, against
+   wildcard-free and wildcard names; as DNS SAN and as common name *)
+DotBases    == {<<"a">>, <<"a", ".", "b">>, <<"*", ".", "b">>, <<"a", ".", "*">>, <<"*">>}
+DotSuffixes == {<<>>, <<".">>, <<".", ".">>, <<".", ".", ".">>}
+DotNames    == {b \o x : b \in DotBases, x \in DotSuffixes}
+               \cup {<<"a", ".", ".", "b">>, <<"*", ".", ".", "b">>, <<".", "a">>, <<".", "a", ".", "b">>,
+                     <<"a", ".", ".", "b", ".">>, <<".">>, <<".", ".">>}
+DotCases(d) ==
+  {Case(h, c) : h \in DotNames,
+                c \in UNION {{Cert(TRUE, <<p>>, <<>>, NoName, FALSE), Cert(FALSE, <<>>, <<>>, p, FALSE),
+                              Cert(TRUE, <<NoName, p>>, <<>>, p, FALSE)} : p \in DotNames}}
 
 ----------------------------------------------------------------------------
 GroupsToBytes(g) == [i \in 1..16 |-> IF i % 2 = 1 THEN g[(i + 1) \div 2] \div 256 ELSE g[i \div 2] % 256]
@@ -79,6 +94,7 @@ AlphaCases(d) == UNION {{Case(h, c) : c \in AlphaCerts(h)} : h \in AlphaHosts(d)
 Cases(fams) == (IF "pairs" \in fams THEN PairCases(0) ELSE {})
         \cup   (IF "variants" \in fams THEN VariantCases(0) ELSE {})
         \cup   (IF "alpha" \in fams THEN AlphaCases(0) ELSE {})
+        \cup   (IF "dots" \in fams THEN DotCases(0) ELSE {})
 
 Run(fams) ==
   LET cases == Cases(fams)
